@@ -249,7 +249,12 @@ def r4(ctx, ty, m, disc):
                      (w.value[0] == 'bin' and w.value[1].startswith('Add') and w.value[3] == ('const', 1)) for w in incs)
         reset_dom = all(cfg.dominates(resets[0].bb, p) for p in pushes)
         hdrs = [h for h in cfg.loop_headers() if pushes[0] in cfg.loop_of(h)]
-        paired = bool(hdrs) and all(not cfg.reaches(p, hdrs[0], avoid=[w.bb for w in incs]) for p in pushes) and all(not cfg.reaches(resets[0].bb, w.bb, avoid=pushes) for w in incs)
+        # one increment per enqueue, in either order within an iteration: no iteration path passes an enqueue without an increment, nor an
+        # increment without an enqueue
+        ib = [w.bb for w in incs]
+        paired = bool(hdrs) and \
+            all(not (cfg.reaches(hdrs[0], p, avoid=ib) and cfg.reaches(p, hdrs[0], avoid=ib)) for p in pushes) and \
+            all(not (cfg.reaches(hdrs[0], w.bb, avoid=pushes) and cfg.reaches(w.bb, hdrs[0], avoid=pushes)) for w in incs)
         reset_outside = bool(hdrs) and resets[0].bb not in cfg.loop_of(hdrs[0])
         # every call that returns an item passes the reset (an early return before it would leave a stale count for skip_subtree)
         from ..mir import EXIT
